@@ -478,8 +478,14 @@ func (c *Client) handleSessionMessage(addr *net.UDPAddr, msg []byte) error {
 		return nil
 	}
 
+	// A message too short to hold a counter and a tag cannot authenticate.
+	plaintextLen := PlaintextLen(len(msg))
+	if plaintextLen < 0 {
+		return ErrBufUnderflow
+	}
+
 	// TODO(dadrian): Can we avoid this allocation?
-	plaintext := make([]byte, PlaintextLen(len(msg)))
+	plaintext := make([]byte, plaintextLen)
 	_, mt, err := c.ss.readPacketLocked(plaintext, msg, c.ss.readKey)
 	if err != nil {
 		return err
